@@ -317,10 +317,13 @@ func genDubbo(r *Rng, big bool) validFrame {
 	b := dubboFrame(flag, status, id, payload)
 	desc["flag"] = flag
 	desc["len"] = len(b)
-	return validFrame{Bytes: b, Fixed: 16, Desc: desc, Fields: []lenField{{"datalen", 12, 4}}, Extra: map[string][]byte{
-		"dubbo:request-not-hessian": dubboFrame(0xc0|3, 0, id, payload),
-		"dubbo:request-bad-hessian": dubboFrame(0xc2, 0, id, r.Bytes(1+r.Intn(20))),
-	}}
+	ex := map[string][]byte{}
+	if dubboOdd {
+		ex = dubboOddRequests(r, id)
+	}
+	ex["dubbo:request-not-hessian"] = dubboFrame(0xc0|3, 0, id, payload)
+	ex["dubbo:request-bad-hessian"] = dubboFrame(0xc2, 0, id, r.Bytes(1+r.Intn(20)))
+	return validFrame{Bytes: b, Fixed: 16, Desc: desc, Fields: []lenField{{"datalen", 12, 4}}, Extra: ex}
 }
 
 func genThrift(r *Rng, big bool) validFrame {
